@@ -6,7 +6,7 @@ $VERIF_SCRATCH or /var/tmp, removed afterwards); the property's check is run wit
 expect=fail: the check must print a VIOLATION for the property; expect=pass: it must not.
 Also applies every /verif/seeded/<name>/patch.diff (expect fail for meta.property)."""
 import json,os,subprocess,sys,shutil,time
-V="/verif"; scratch_root=os.environ.get("VERIF_SCRATCH","/var/tmp")
+V=os.environ.get("VERIF_DIR","/verif"); scratch_root=os.environ.get("VERIF_SCRATCH","/var/tmp")
 muts=json.load(open(V+"/selftest/mutants.json"))
 want=set(sys.argv[1:])
 wt=os.path.join(scratch_root,"govc-selftest-%d"%os.getpid())
@@ -14,7 +14,7 @@ def sh(*a,**k): return subprocess.run(a,capture_output=True,text=True,**k)
 sh("git","-C","/repo","worktree","add","--detach","-q",wt,"HEAD")
 results=[]
 def run_check(pid):
-    r=sh(V+"/bin/govc","check",pid,"--repo",wt,"--tier","quick",env=dict(os.environ,VERIF_NO_EVIDENCE="1"))
+    r=sh(V+"/bin/govc","check",pid,"--repo",wt,"--tier","quick","--verif",V,env=dict(os.environ,VERIF_NO_EVIDENCE="1"))
     viol=[l for l in r.stdout.split("\n") if l.startswith("VIOLATION property="+pid)]
     return viol,r
 try:
